@@ -129,6 +129,8 @@ LOSSES = {
 }
 # exactly one reply is lost, once: the reply to the first request with this (code, payload) -- a fault at every point of the first round
 LOSSES["one-reply-lost"] = (lambda a: (lambda n, t, c, p, st={"done": False}: (st.__setitem__("done", True) or "rp") if (c, p) == tuple(a) and not st["done"] else None), 50)
+# ... or the replies to its first TWO occurrences (lost in the first and in the second polling round): the third round fills it in
+LOSSES["one-reply-lost-twice"] = (lambda a: (lambda n, t, c, p, st={"k": 0}: (st.__setitem__("k", st["k"] + 1) or "rp") if (c, p) == tuple(a) and st["k"] < 2 else None), 76)
 LOSS_ARGS = {"none": [0], "first-k-topology-replies": [1, 3, 8, 15], "every-mth-reply": [2, 3, 5], "all-0005-replies-early": [0.01, 0.2, 1.0],
              "everything-lost-early": [0.01, 0.5, 7.0], "zone-replies-lost-early": [0.02, 0.5, 2.0],
              "first-k-requests-unsent": [1, 4, 8, 12, 20], "requests-unsent-early": [0.002, 0.01, 0.2]}
@@ -280,7 +282,7 @@ def run(ctx: Ctx) -> None:
                          "02": {"class": "radiator_valve", "actuators": ["04:100002"], "sensor": disc.CTL}}}
     jobs.append((witness, "none", 0, 0.3))
     n_b = 60 if thorough else 14
-    kinds = [k for k in LOSSES if k not in ("none", "one-reply-lost")]
+    kinds = [k for k in LOSSES if k not in ("none", "one-reply-lost", "one-reply-lost-twice")]
     for j in range(n_b):
         cfg = disc.gen_cfg(rng, nzones=rng.choice([0, 1, 2, 3, 5, 8, 12]) if j % 3 else None, max_act=rng.choice([1, 3, 8]), ctl_sensor_once=True)
         kind = "none" if j % 4 == 0 else kinds[j % len(kinds)]
@@ -289,15 +291,23 @@ def run(ctx: Ctx) -> None:
     # the single-loss sweep: for every topology request of the first round of a configuration (zones with a sensor AND actuators, DHW, appliance),
     # a run in which only the reply to that request is lost, once
     for _ in range(3 if thorough else 1):
-        cfg = disc.gen_cfg(rng, nzones=rng.choice([2, 3]) if not thorough else rng.choice([2, 3, 5]), max_act=2, ctl_sensor_once=True)
+        cfg = disc.gen_cfg(rng, nzones=3 if not thorough else rng.choice([3, 4, 5]), max_act=2, ctl_sensor_once=True)
         for j, z in enumerate(cfg["zones"].values()):
-            z.setdefault("sensor", f"34:{100500 + j:06d}")
-            if not z.get("actuators"):
+            # one zone with a sensor and actuators, one with a sensor and NO actuator, one with actuators and NO sensor (an empty slot beside a full one), ...
+            if j % 3 != 2:
+                z.setdefault("sensor", f"34:{100500 + j:06d}")
+            else:
+                z.pop("sensor", None)
+            if j % 3 == 1:
+                z["actuators"] = []
+            elif not z.get("actuators"):
                 z["actuators"] = [f"{'04' if z['class'] == 'radiator_valve' else '13'}:{100600 + j:06d}"]
         first = disc.run_discovery(cfg, None, 0.05)
         rqs = sorted({(w[3], w[4]) for w in first["writes"] if w[1] == "RQ" and w[2] == disc.CTL and w[3] in ("0005", "000C")})
         for rq in rqs:
             jobs.append((cfg, "one-reply-lost", list(rq), LOSSES["one-reply-lost"][1]))
+            if rq[0] == "000C":
+                jobs.append((cfg, "one-reply-lost-twice", list(rq), LOSSES["one-reply-lost-twice"][1]))
     with mp.get_context("fork").Pool(min(common.NPROC, 12)) as pool:
         results = pool.map(discovery_job, jobs, chunksize=1)
     req_cases = []
